@@ -159,6 +159,15 @@ for _k in ("C01", "C02", "C03", "C04", "C05"):
     CLAIMS[_k] = (CLAIMS[_k][0], CLAIMS[_k][1] + " " + BR, CLAIMS[_k][2], CLAIMS[_k][3] + " + bounded stand-in")
 CLAIMS["C25"] = (CLAIMS["C25"][0], CLAIMS["C25"][1] + " BOUNDED addition rcheck/stores: the real boltdb attribute store (standalone and through SetRowAttrs/SetColumnAttrs) under random SetAttrs/SetBulkAttrs histories, caller-side mutation of passed and returned maps, reopen, Blocks/BlockData/IndexAttrDiff, against a map model.", CLAIMS["C25"][2], CLAIMS["C25"][3] + " + bounded stand-in")
 
+CLAIMS.update({
+ "C08": ("exploration",
+   "BOUNDED ONLY - restart behaviour is an I/O history over the data directory; no per-call contract expresses it. rcheck/restart: an in-process server is given a random schema (all field types and options, keys, trackExistence) and random acknowledged writes and schema deletions, is closed and reopened (once, and twice in a row), and schema, available shards and the answers of 150-400 read queries are compared before/after and against a map model; writes after the restart are included.",
+   "bounded exploration; nothing here is a proof.", "bounded stand-in"),
+ "C30": ("exploration",
+   "BOUNDED ONLY - export/import run through CLI commands, HTTP and encoding/csv. rcheck/csvio: random set-field contents (keys on/off, several shards with a gap, boundary offsets, keys with commas/quotes/Unicode) are exported with the real ExportCommand and imported with the real ImportCommand into an empty field of the same options; bits and keys must be identical.",
+   "bounded exploration; nothing here is a proof.", "bounded stand-in"),
+})
+
 NA = {
  "C08": "restart behaviour is an I/O history over the data directory (boltdb, files, protobuf meta); no per-call contract within the generator's subset expresses it, and no bounded stand-in was built",
  "C09": "crash points are positions in a file-system history, not a per-call notion; contract-based verification of single calls cannot decide it",
